@@ -91,17 +91,19 @@ def harness_parallel(jobs, timeout=1800):
         for k, v in opts.items():
             args += ["--" + k, str(v)]
         args += ["--result", rf]
-        procs.append((subprocess.Popen(args, stdout=subprocess.PIPE, stderr=subprocess.PIPE, text=True), cmd, rf))
+        errf = open(rf + ".stderr", "w")
+        procs.append((subprocess.Popen(args, stdout=subprocess.DEVNULL, stderr=errf, text=True), cmd, rf))
     out = []
     deadline = time.time() + timeout
     for p, cmd, rf in procs:
         try:
-            so, se = p.communicate(timeout=max(1, deadline - time.time()))
+            p.wait(timeout=max(1, deadline - time.time()))
         except subprocess.TimeoutExpired:
             for q, _, _ in procs:
                 q.kill()
             raise ToolError("harness %s timed out" % cmd)
         if p.returncode != 0:
+            se = open(rf + ".stderr", errors="replace").read()
             raise ToolError("harness %s failed rc=%d: %s" % (cmd, p.returncode, se[-3000:]))
         out.append(json.load(open(rf)))
     return out
